@@ -474,8 +474,20 @@ func (en *Engine) VerifyFunc(fc *FuncContract) (res *FuncResult) {
 			fc.Params = append(fc.Params[:i:i], fn.Params[i].Name())
 		}
 	}
-	if len(fn.Params) != len(fc.Params) {
+	if len(fn.Params) < len(fc.Params) {
 		panic(contractErr(fmt.Sprintf("%s: contract header has %d parameters (incl. receiver), function has %d", fc.Key, len(fc.Params), len(fn.Params))))
+	}
+	if len(fn.Params) > len(fc.Params) {
+		// trailing parameters the contract does not name are arbitrary inputs
+		top.note(fmt.Sprintf("%s has %d parameters, its contract names %d: the extra trailing ones are unconstrained inputs", shortKey(fc.Key), len(fn.Params), len(fc.Params)))
+		ps := append([]string{}, fc.Params...)
+		for i := len(fc.Params); i < len(fn.Params); i++ {
+			ps = append(ps, fn.Params[i].Name())
+		}
+		cp := *fc
+		cp.Params = ps
+		fc = &cp
+		fr.fc = fc
 	}
 	sc := &Scope{fr: fr, st: st, vars: map[string]Val{}, entry: map[string]Val{}, pkg: fr.pkg}
 	// captured variables of a function literal: cells with arbitrary well-formed content
